@@ -665,6 +665,39 @@ pub fn bucket_dir_history(ps: u64, n: usize, d: usize, w: usize, extra_deletes: 
     History { pagesize: ps, num_pages: 8, strict: false, populate: false, txs: vec![tx0, tx1, tx2], origin: format!("bucket directory: {} nested buckets, delete #{} (+{}), write into #{}", n, d, extra_deletes, w) }
 }
 
+/// Directed family: the ROOT of the database (the directory of top-level buckets) as a multi-page tree.
+/// `n` top-level buckets with 10-byte names (17 fill a 1 KiB leaf) are created, the file is closed and
+/// reopened, then one transaction deletes the top-level buckets number `a..b` and nothing else (all
+/// leaves of the root but one emptied, the survivor untouched, is one of these), then ordinary commits.
+pub fn root_dir_history(ps: u64, n: usize, a: usize, b: usize) -> History {
+    let name = |j: usize| K::lit(format!("bucket-{:03}", j).as_bytes());
+    let put = |h: H, k: &[u8], tag: u64, len: usize| Op::Put { h, k: K::lit(k), v: V { tag, len }, how: How::Slice, vhow: How::Slice };
+    let mut ops = Vec::new();
+    for j in 0..n {
+        ops.push(Op::TxCreate { k: name(j), how: How::Slice });
+        if j % 3 == 0 || n % 4 == 0 {
+            ops.push(put(j, b"k", 100 + j as u64, 12));
+            ops.push(put(j, b"l", 500 + j as u64, 12));
+        }
+    }
+    ops.push(Op::TxBuckets);
+    let tx0 = TxScript { ops, end: End::Commit, reopen: true };
+    // a transaction that only reads (and commits): the header pair must keep describing the same tree
+    let tx1 = TxScript { ops: vec![Op::TxBuckets, Op::TxGet { k: name(n - 1), how: How::Slice }], end: End::Commit, reopen: (a + b) % 2 == 0 };
+    let mut ops = Vec::new();
+    for j in a..b.min(n) {
+        ops.push(Op::TxDelete { k: name(j), how: How::Slice });
+    }
+    // (half of the histories do not even list the survivors: nothing but the deletions touches the tree)
+    if b % 4 == 0 {
+        ops.push(Op::TxBuckets);
+    }
+    let tx2 = TxScript { ops, end: End::Commit, reopen: (a + b) % 3 == 0 };
+    let tx3 = TxScript { ops: vec![Op::TxGetOrCreate { k: name(n + 1), how: How::Slice }, put(0, b"after", 7, 30), Op::TxBuckets], end: End::Commit, reopen: true };
+    let tx4 = TxScript { ops: vec![Op::TxGetOrCreate { k: name(0), how: How::Slice }, put(0, b"again", 8, 30)], end: End::Commit, reopen: false };
+    History { pagesize: ps, num_pages: 8, strict: false, populate: false, txs: vec![tx0, tx1, tx2, tx3, tx4], origin: format!("root directory: {} top-level buckets, delete #{}..{}", n, a, b) }
+}
+
 // ---------------------------------------------------------------------------
 // Directed family: several bucket deletions at different nesting levels in one
 // transaction (child then ancestor, ancestor of a bucket modified or created in
